@@ -124,25 +124,31 @@ func checkC17(p *Prog, res *Result, tier string) {
 			}
 		}
 	}
-	// (2) expiry function: the scanner function that calls SupportTTL and issues deletes
+	// (2) expiry deletes: call chains from the function that consults SupportTTL down to an engine delete
 	var expiry *ssa.Function
+	spk := p.ssaPkg("pkg/backend/scanner")
+	isEngineDelete := func(ins ssa.Instruction) bool {
+		c, ok := ins.(ssa.CallInstruction)
+		return ok && c.Common().IsInvoke() && (c.Common().Method == r.KVDel || c.Common().Method == r.KVDelCurrent)
+	}
+	inScanner := func(f *ssa.Function) bool { return f.Pkg == spk }
+	var expChains []callChain
 	for _, f := range p.AllFuncs {
-		if f.Pkg != p.ssaPkg("pkg/backend/scanner") || f.Synthetic != "" {
+		if f.Pkg != spk || f.Synthetic != "" || f.Parent() != nil {
 			continue
 		}
-		ttl, del := false, false
+		ttl := false
 		for _, c := range callsIn(f) {
 			if c.Common().IsInvoke() && c.Common().Method == r.KVSupportTTL {
 				ttl = true
 			}
-			for _, callee := range p.calleesOf(c) {
-				if reachesStorageDelete(p, r, callee, 2) != "" {
-					del = true
-				}
-			}
 		}
-		if ttl && del {
-			expiry = f
+		if !ttl {
+			continue
+		}
+		chs := enumerateChains(p, f, isEngineDelete, inScanner, 5)
+		if len(chs) > 0 {
+			expiry, expChains = f, chs
 		}
 	}
 	if expiry == nil {
@@ -150,20 +156,22 @@ func checkC17(p *Prog, res *Result, tier string) {
 		return
 	}
 	type delSite struct {
-		call ssa.CallInstruction
+		call ssa.CallInstruction // the engine delete
 		kind string
+		ch   callChain
 	}
 	var dels []delSite
-	for _, c := range callsIn(expiry) {
-		for _, callee := range p.calleesOf(c) {
-			if k := reachesStorageDelete(p, r, callee, 2); k != "" {
-				dels = append(dels, delSite{c, k})
-			}
+	for _, ch := range expChains {
+		e := ch.target.(ssa.CallInstruction)
+		k := "Del"
+		if e.Common().Method == r.KVDelCurrent {
+			k = "DelCurrent"
 		}
+		dels = append(dels, delSite{e, k, ch})
 	}
 	for i, d := range dels {
 		found := false
-		for _, cf := range dominatingFacts(d.call.Block()) {
+		for _, cf := range d.ch.facts() {
 			if cf.Call != nil && cf.Want {
 				if sc := cf.Call.Common().StaticCallee(); sc != nil && sc.Pkg != nil && (sc.Pkg.Pkg.Path() == "bytes" || sc.Pkg.Pkg.Path() == "strings") {
 					sites = append(sites, site{fmt.Sprintf("expiry delete #%d: %s", i+1, funcName(expiry)), expiry, cf.Call, d.call.Pos()})
@@ -172,7 +180,7 @@ func checkC17(p *Prog, res *Result, tier string) {
 			}
 		}
 		if !found {
-			res.bad("C17-R1", fmt.Sprintf("expiry delete #%d: %s: classification predicate", i+1, funcName(expiry)), p.pos(d.call.Pos()), "an expiry delete is not guarded by an event-key test")
+			res.bad("C17-R1", fmt.Sprintf("expiry delete #%d: %s: classification predicate", i+1, funcName(expiry)), p.pos(d.call.Pos()), "an expiry delete is not guarded by an event-key test: "+d.ch.String())
 		}
 	}
 	siteCtor := map[string]*ssa.Function{}
@@ -259,7 +267,7 @@ func checkC17(p *Prog, res *Result, tier string) {
 	for i, d := range dels {
 		construct := fmt.Sprintf("%s: age guard of expiry delete #%d", funcName(expiry), i+1)
 		good := false
-		for _, cf := range dominatingFacts(d.call.Block()) {
+		for _, cf := range d.ch.facts() {
 			if cf.X == nil {
 				continue
 			}
@@ -279,7 +287,7 @@ func checkC17(p *Prog, res *Result, tier string) {
 			}
 		}
 		if good {
-			res.ok("C17-R2", construct, p.pos(d.call.Pos()), "dominated by revision <= timeoutRevision")
+			res.ok("C17-R2", construct, p.pos(d.call.Pos()), "guarded by revision <= timeoutRevision")
 		} else {
 			res.bad("C17-R2", construct, p.pos(d.call.Pos()), "an event record is removed without the guard revision <= timeoutRevision: events younger than the TTL can be expired")
 		}
@@ -352,8 +360,8 @@ func checkC17(p *Prog, res *Result, tier string) {
 	for i, d := range dels {
 		construct := fmt.Sprintf("%s: delete primitive of expiry delete #%d", funcName(expiry), i+1)
 		isIndex, known := false, false
-		for _, cf := range dominatingFacts(d.call.Block()) {
-			if cf.X != nil && revParam != nil && resolve(cf.X) == ssa.Value(revParam) && isZeroConst(cf.Y) {
+		for _, cf := range d.ch.facts() {
+			if cf.X != nil && revParam != nil && d.ch.same(cf.X, cf.level, revParam, 0) && isZeroConst(cf.Y) {
 				known = true
 				isIndex = (cf.Op == token.EQL && cf.Want) || (cf.Op == token.NEQ && !cf.Want)
 			}
@@ -382,7 +390,7 @@ func checkC17(p *Prog, res *Result, tier string) {
 		for _, c := range callsIn(f) {
 			for _, callee := range p.calleesOf(c) {
 				cu := unwrapSynthetic(callee)
-				if cu == r.Sink || cu == w.fanout || cu == w.register || cu == w.cacheAdd {
+				if cu == r.Sink || cu == w.fanout || cu == w.hubLoop || cu == w.register || cu == w.cacheAdd {
 					hit = funcName(f) + " -> " + funcName(cu)
 				}
 			}
@@ -401,7 +409,7 @@ func checkC17(p *Prog, res *Result, tier string) {
 		good := true
 		for _, d := range dels {
 			g := false
-			for _, cf := range dominatingFacts(d.call.Block()) {
+			for _, cf := range d.ch.facts() {
 				if cf.Call != nil && cf.Call.Common().IsInvoke() && cf.Call.Common().Method == r.KVSupportTTL && !cf.Want {
 					g = true
 				}
